@@ -76,38 +76,38 @@ def run(tier, seed):
   quick = tier == 'quick'
   rng = np.random.default_rng([int(seed), 11])
   specs, k = [], 0
-  per_small, per_large = (4, 3) if quick else (12, 6)
+  per_small, per_large = (3, 2) if quick else (12, 6)
   for n in (1, 2, 3, 4, 5) if quick else (1, 2, 3, 4, 5, 6):
     panels = sl.panel_specs(n, rng, 6)
     if n <= 4:
       tables = sl.elig_multisets(n)
     else:
-      tables = sl.elig_samples(n, rng, 90 if quick else (
+      tables = sl.elig_samples(n, rng, 60 if quick else (
           300 if n == 5 else 120), absent=True)
       if not quick and n == 5:   # all multisets in size order as well
         tables += [list(ms) for ms in
                    itertools.combinations_with_replacement(range(7), 5)]
     for j, table in enumerate([None] + tables):
-      for r in range(per_small if n <= 4 else per_large):
+      for r in range(per_large if n >= 5 or (quick and n == 4) else per_small):
         par = dict(SETTINGS[k % len(SETTINGS)])
         k += 7 if r else 1       # stride: all settings occur for every n
         par['n_designs'] = 100000
         if n >= 4 and k % 5 == 0:
           par['n_geos_max'] = 3
-        search = (k % 4 == 0) and n <= 4
-        if search and k % 8 == 0:
+        search = n <= 4 and len(specs) % (6 if quick else 4) == 0
+        if search and len(specs) % 12 == 0:
           par['volume_ratio_tolerance'] = 0.5
         specs.append({'panel': panels[(j + r) % len(panels)], 'elig': table,
                       'par': par, 'search': bool(search)})
   res = base.MonitorResult(
       'C11: every multiset of the seven eligibility row types over 1-4 geos '
       '(size order and reversed), %s, and no-eligibility cases, each with %d (<=4 '
-      'geos) or %d (5+ geos) of the %d combinations of treatment_geos_range x control_geos_range x '
+      'geos; quick: <=3) or %d (more geos) of the %d combinations of treatment_geos_range x control_geos_range x '
       'geo_ratio_tolerance (rotating so that every combination occurs for '
       'every geo count; some with n_geos_max=3); count_max_designs() vs the '
       'number of distinct pairs from the two generators vs a brute force '
       'over all control/treatment/neither assignments of the admitted geos; '
-      'for a quarter of the <=4-geo cases the exhaustive search (n_designs '
+      'for a share of the <=4-geo cases the exhaustive search (n_designs '
       '= 100000) must not return more designs than the count. non-trivial = '
       'the brute-force count is positive; distinct = case spec' % (
           'seeded tables for 5 geos' if quick else
